@@ -222,8 +222,23 @@ def gen_scenario(rng: random.Random) -> list[list[str]]:
         return f"Mark: s{u[0]}"
     w1 = rng.choice([0.2, 0.3, 0.5, 0.8])
     w2 = rng.choice([0.2, 0.4, 1.0])
-    k = rng.randrange(5)
-    if k == 0:      # macro invocation abandoned by a Watch ending its block, macro called again
+    k = rng.randrange(11)
+    if k == 9:      # a block started from a Watch (or Alarm) inside a block that stays active
+        intr = rng.choice(["Watch", "Watch", "Alarm"])
+        lines = ["Base: s", "Block: sbA", f"    {intr}: Block Time > {w2} s", "        Block: sbW", "            " + m(),
+                 "            End block", "        " + m(), "    " + m(), f"    Wait: {w1 + w2 + 0.6}s", "    " + m(), "    End block", m()]
+    elif k == 10:   # three nested blocks, the innermost ended by its own End block with siblings following
+        lines = ["Block: sb1", "    " + m(), "    Block: sb2", "        Block: sb3", "            " + m(), "            End block",
+                 "        " + m(), "        End block", "    " + m(), "    End block", m()]
+    elif k == 5:      # direct recursion
+        lines = ["Macro: RA", "    " + m(), "    Call macro: RA", "    " + m(), m(), "Call macro: RA", m()]
+    elif k == 6:    # mutual recursion
+        lines = ["Macro: RA", "    " + m(), "    Call macro: RB", "Macro: RB", "    " + m(), "    Call macro: RA", "Call macro: RA", m()]
+    elif k == 7:    # the recursive call is not the first call in the body
+        lines = ["Macro: RB", "    " + m(), "Macro: RA", "    " + m(), "    Call macro: RB", "    Call macro: RA", m(), "Call macro: RA", m()]
+    elif k == 8:    # the recursive call is nested in a block inside the macro body
+        lines = ["Macro: RA", "    " + m(), "    Block: rb1", "        Call macro: RA", "        End block", m(), "Call macro: RA", m()]
+    elif k == 0:      # macro invocation abandoned by a Watch ending its block, macro called again
         body = [m(), f"Wait: {w1}s", m(), m()] if rng.random() < 0.7 else [m(), m(), f"Wait: {w1}s", m()]
         lines = ["Base: s", "Macro: MA"] + ["    " + b for b in body] + [
             "Block: sb1", f"    Watch: Block Time > {w2} s", "        End block", "    Call macro: MA", m(), "Call macro: MA", m()]
